@@ -10,7 +10,7 @@ if [ "$REPO" != "/repo" ]; then
     sed -i "s|path = \"/repo\"|path = \"$REPO\"|" harness/Cargo.toml featdrv/Cargo.toml
 fi
 export VERIF_HOME=$HERE VERIF_SEED=${VERIF_SEED:-1}
-for d in seeded/$PAT; do
+for d in $(for p in $PAT; do ls -d seeded/$p; done | awk '!seen[$0]++'); do
     id=$(basename "$d")
     own=$(echo "$id" | cut -c1-3 | tr a-z A-Z)
     if ! git -C "$REPO" diff --quiet; then echo "$id: repo snapshot not clean"; git -C "$REPO" checkout -- .; fi
